@@ -37,6 +37,7 @@ fn main() {
     let policy = RawMap { fd: map_fd(&bpf, "policy_map"), key_size: 24, value_size: 24 };
     let skip = RawMap { fd: map_fd(&bpf, "skip_process_map"), key_size: 4, value_size: 4 };
     let audit = RawMap { fd: map_fd(&bpf, "audit_map"), key_size: 8, value_size: 20 };
+    let local = RawMap { fd: map_fd(&bpf, "local_map"), key_size: 8, value_size: 24 };
     let mut round_trips = 0u64;
 
     // ---- (1) policy / skip layout through the kernel maps
@@ -232,6 +233,29 @@ fn main() {
             audit.delete(&world::audit_key(30000 + i));
         }
     }
+    // the same for the hand-off map between the two hook points: 150 threads that passed the first hook and have not yet
+    // reached the second (pid_tgid keys, written from one CPU) keep their hand-off entry in the map the kernel creates from
+    // the object's declaration
+    let mut handoff_ok = 0u64;
+    {
+        let n = 150u64;
+        let val = vec![0x3cu8; 24];
+        let key = |i: u64| (((7000 + i) << 32) | (7000 + i)).to_ne_bytes().to_vec();
+        for i in 0..n {
+            if !local.update(&key(i), &val) {
+                vcommon::result::machinery("cannot write into the kernel local_map");
+            }
+        }
+        let missing: Vec<u64> = (0..n).filter(|i| local.lookup(&key(*i)).is_none()).collect();
+        handoff_ok = n - missing.len() as u64;
+        if !missing.is_empty() {
+            res.violation("handoff-map-loses-in-flight-connects", &format!("{} of {n} hand-off entries of threads between the two hook points (written from one CPU into the kernel's local_map, created from the program's own declaration) were gone before the second hook could pick them up - those connects reach the proxy without a record (the audit map holds 200); first missing: thread {}", missing.len(), 7000 + missing[0]), json!({"family": "in-flight-hand-offs-in-the-kernel-map", "threads": n}));
+        }
+        for i in 0..n {
+            local.delete(&key(i));
+        }
+    }
+    res.cov("in_flight_hand_offs_kept_by_the_kernel_map", handoff_ok);
     res.cov("pending_records_kept_by_the_kernel_map", pending_ok);
     res.cov("states", *stats.get("states").unwrap_or(&0));
     res.cov("transitions", *stats.get("transitions").unwrap_or(&0));
@@ -247,6 +271,8 @@ fn main() {
     res.cov("bound_socket_connects", *stats.get("bound_socket_connects").unwrap_or(&0));
     res.cov("handoff_update_failure_connects", *stats.get("handoff_update_failure_connects").unwrap_or(&0));
     res.cov("connects_not_judged_policy_changed_between_hooks", *stats.get("connects_not_judged_policy_changed_between_hooks").unwrap_or(&0));
+    res.cov("policy_toggle_configurations", *stats.get("policy_toggle_configurations").unwrap_or(&0));
+    res.cov("diverted_connects_with_policy_change_between_hooks_checked_for_their_record", *stats.get("diverted_connects_with_policy_change_between_hooks_checked_for_their_record").unwrap_or(&0));
     res.cov("audit_patterns_decoded_by_the_real_agent_code", decoded);
     res.cov("exhaustive", true);
     res.cov("rule", "configurations: policy in {all three endpoints, WireServer only, WireServer+HostGA, (thorough) none} x pairs (thorough: also triples) of threads from {agent main thread, an agent worker thread, uid0/gid0, uid0/gid1000, uid1000/gid0, uid1000/gid1000, a second thread of that process} x 1 (thorough: 2) connects each to {WS:80, WS:32526, IMDS:80, WS:81, 10.0.0.1:80} x {TCP, UDP}; thorough adds one policy toggle and one connect aborted between the hooks as environment events; plus every policy x identity x destination with the caller's socket bound to a local address (10.0.0.4) before the connect, and once more with the update of the hand-off map failing (-ENOMEM / -EBUSY): still diverted; per configuration BFS over all interleavings of connect4 / tcp_connect invocations (hook-atomic), deduplicated on (map contents, thread program counters, in-flight ctx, policy); plus, for the two-thread configurations without environment events, a stateless preemption-bounded DFS (bound 2, thorough 3) in which every helper call of a hook is a scheduling point (hooks run as coroutines and are switched before each helper executes), every schedule re-executed from the initial maps; model traces are bound to the implementation by the kernel-map round trips (policy/skip bytes written by the real Rust code are the model's input, audit bytes produced by the model are decoded by the real Rust code; 150 pending records written from one CPU must all be kept by the kernel map created from the object's declaration)".to_string());
